@@ -310,14 +310,26 @@ func checkC10(c C10Case) Verdict {
 	}
 	// the same message inside every kind of block (its lets travel with it)
 	wrap := map[string]func(body []ref.Cmd) []ref.Cmd{
-		"let content":        func(b []ref.Cmd) []ref.Cmd { return []ref.Cmd{{K: "letc", Var: "zz", Body: b}, printVar("zz")} },
-		"call param content": func(b []ref.Cmd) []ref.Cmd { return []ref.Cmd{{K: "call", Call: &ref.Call{Target: "m.echo", Params: []ref.Param{{Key: "v", IsBlock: true, Content: b}}}}} },
-		"loop body":          func(b []ref.Cmd) []ref.Cmd { return []ref.Cmd{{K: "for", Var: "zi", Expr: &ref.Expr{Op: "call", Name: "range", Args: []*ref.Expr{{Op: "int", I: 2}}}, Body: b}} },
-		"ifempty":            func(b []ref.Cmd) []ref.Cmd { return []ref.Cmd{{K: "for", Style: 1, Var: "zi", Expr: &ref.Expr{Op: "list"}, Body: []ref.Cmd{txt("x")}, HasElse: true, Else: b}} },
-		"switch case":        func(b []ref.Cmd) []ref.Cmd { return []ref.Cmd{{K: "switch", Expr: &ref.Expr{Op: "int", I: 1}, Branches: []ref.Branch{{Values: []*ref.Expr{{Op: "int", I: 1}}, Body: b}}, HasElse: true, Else: []ref.Cmd{txt("d")}}} },
-		"switch default":     func(b []ref.Cmd) []ref.Cmd { return []ref.Cmd{{K: "switch", Expr: &ref.Expr{Op: "int", I: 1}, Branches: []ref.Branch{{Values: []*ref.Expr{{Op: "int", I: 2}}, Body: []ref.Cmd{txt("c")}}}, HasElse: true, Else: b}} },
-		"else branch":        func(b []ref.Cmd) []ref.Cmd { return []ref.Cmd{{K: "if", Branches: []ref.Branch{{Cond: &ref.Expr{Op: "bool"}, Body: []ref.Cmd{txt("t")}}}, HasElse: true, Else: b}} },
-		"log":                func(b []ref.Cmd) []ref.Cmd { return []ref.Cmd{{K: "log", Body: b}} },
+		"let content": func(b []ref.Cmd) []ref.Cmd { return []ref.Cmd{{K: "letc", Var: "zz", Body: b}, printVar("zz")} },
+		"call param content": func(b []ref.Cmd) []ref.Cmd {
+			return []ref.Cmd{{K: "call", Call: &ref.Call{Target: "m.echo", Params: []ref.Param{{Key: "v", IsBlock: true, Content: b}}}}}
+		},
+		"loop body": func(b []ref.Cmd) []ref.Cmd {
+			return []ref.Cmd{{K: "for", Var: "zi", Expr: &ref.Expr{Op: "call", Name: "range", Args: []*ref.Expr{{Op: "int", I: 2}}}, Body: b}}
+		},
+		"ifempty": func(b []ref.Cmd) []ref.Cmd {
+			return []ref.Cmd{{K: "for", Style: 1, Var: "zi", Expr: &ref.Expr{Op: "list"}, Body: []ref.Cmd{txt("x")}, HasElse: true, Else: b}}
+		},
+		"switch case": func(b []ref.Cmd) []ref.Cmd {
+			return []ref.Cmd{{K: "switch", Expr: &ref.Expr{Op: "int", I: 1}, Branches: []ref.Branch{{Values: []*ref.Expr{{Op: "int", I: 1}}, Body: b}}, HasElse: true, Else: []ref.Cmd{txt("d")}}}
+		},
+		"switch default": func(b []ref.Cmd) []ref.Cmd {
+			return []ref.Cmd{{K: "switch", Expr: &ref.Expr{Op: "int", I: 1}, Branches: []ref.Branch{{Values: []*ref.Expr{{Op: "int", I: 2}}, Body: []ref.Cmd{txt("c")}}}, HasElse: true, Else: b}}
+		},
+		"else branch": func(b []ref.Cmd) []ref.Cmd {
+			return []ref.Cmd{{K: "if", Branches: []ref.Branch{{Cond: &ref.Expr{Op: "bool"}, Body: []ref.Cmd{txt("t")}}}, HasElse: true, Else: b}}
+		},
+		"log": func(b []ref.Cmd) []ref.Cmd { return []ref.Cmd{{K: "log", Body: b}} },
 	}
 	for what, w := range wrap {
 		wp := progWith(w(cloneCmds(c.Cmds)), nil, nil)
